@@ -116,7 +116,10 @@ func (d *vRandDriver) step(emit func(vEvent)) bool {
 			st.Cfgk = "other"
 		}
 	case 1:
-		c := 1 + d.r.Intn(nconn)
+		c := 0 // no connection exists (yet): a report about an unknown one
+		if nconn > 0 {
+			c = 1 + d.r.Intn(nconn)
+		}
 		if d.r.Intn(3) > 0 && nconn > 1 { // prefer recent connections
 			c = nconn - d.r.Intn(minInt(nconn, 3))
 		}
